@@ -73,6 +73,17 @@ def eval_case(case) -> Outcome:
         out.skip = "range-too-narrow"
         return out
     Te_C, Tc_C = round(Te - 273.15, 3), round(Tc - 273.15, 3)
+    snap = case.get("snap")
+    if snap == "te" and lo < 273.15 - 0.0 < Tc - 0.5:
+        Te_C = 0.0  # evaporating at exactly 0 degC (the cycle works in degC: relative comparisons degenerate there)
+    elif snap == "tc" and Te + 0.5 < 273.15 < hi:
+        Tc_C = 0.0
+    elif snap == "round":
+        Te_C, Tc_C = float(round(Te_C)), float(round(Tc_C))
+        if Tc_C - Te_C < 0.5:
+            Tc_C = Te_C + 1.0
+    if snap:
+        out.labels.add("snapped:" + snap + (":0degC" if 0.0 in (Te_C, Tc_C) else ""))
     Te, Tc = Te_C + 273.15, Tc_C + 273.15
     dsh, dsc, eta, Q = case["dsh"], case["dsc"], case["eta"], case["Q"]
     lift = Tc - Te
@@ -250,6 +261,7 @@ def strategy(tier):
             "eta": st.sampled_from([1.0, 0.7, 0.7, 0.85, 0.5, 0.3]),
             "Q": st.sampled_from([1.0, 100.0, 738.7, 2500.0, 0.25, 5e-6, 3e-4, 0.02, 1e6]),  # any positive duty: a 5 kW machine written in GW, a 1 GW one in kW
             "order": st.lists(st.sampled_from(["cond", "evap", "both"]), min_size=1, max_size=4),
+            "snap": st.sampled_from([None, None, None, None, "te", "tc", "round"]),
             "other": st.one_of(
                 st.none(),
                 st.fixed_dictionaries(
